@@ -493,6 +493,21 @@ class FmtGen:
             return "output %s = %s" % (r.choice(NAMES), self.expr(d, ctx))
         return "output %s" % r.choice(NAMES)
 
+    def bare_container(self, depth=2):
+        """-> (source, Case): one statement that is a bare list / record / do-block"""
+        from c0809_lib import py_scan
+        self.case = Case()
+        self.n = 0
+        k = self.r.below(3)
+        ctx = Ctx()
+        while True:
+            src = self.list_(depth, ctx) if k == 0 else self.record(depth, ctx) if k == 1 else self.do_block(depth, ctx)
+            if src not in ("[]", "{}", "[ ]", "{ }"):
+                break
+        recs = {rec[0]: rec for rec in self.case.comments}
+        self.case.comments = [recs[t] for t in py_scan(src) if t in recs]
+        return src, self.case
+
     def program(self):
         """-> (source, Case)"""
         r = self.r
